@@ -275,3 +275,64 @@ Proof.
   rewrite named_iff_known; [|assumption|apply Z; left; reflexivity].
   f_equal. apply IH. intros x I. apply Z. right. exact I.
 Qed.
+
+(* ---- strict mode: the exact outcome ---- *)
+Lemma resolve_strict_unknown reg id ent wl :
+  spec_known reg (id, ent, wl) = false -> resolve Strict reg id ent wl = Err ErrUnknownIE.
+Proof. unfold spec_known, resolve. destruct (reg_lookup reg id ent); [discriminate|reflexivity]. Qed.
+
+(* strict mode fails at the first unknown element, with the "unknown element" error *)
+Lemma decode_tfields_strict_unknown reg n : forall buf wf,
+  wire_fields n buf = Some wf ->
+  forallb zero_ok (map (spec_elem reg) wf) = true ->
+  forallb (spec_known reg) wf = false ->
+  decode_tfields Strict reg n buf = Err ErrUnknownIE.
+Proof.
+  induction n as [|n IH]; intros buf wf; cbn [wire_fields decode_tfields].
+  - intros E _ U. assert (wf = []) as -> by congruence. discriminate.
+  - destruct buf as [|a [|b [|c [|d r]]]]; try discriminate.
+    pose proof (bed2 a b) as B. pose proof (b2n_lt b) as Bb.
+    unfold decode_tfield, rd. cbn [short firstn skipn obind]. rewrite ?short_0. cbn [obind].
+    destruct (N.ltb_spec (b2n a) 128) as [L|L].
+    + destruct (wire_fields n r) as [wf1|] eqn:W1; [|discriminate]. cbn [option_map].
+      intros E. assert (wf = (bed [a; b], 0, bed [c; d]) :: wf1) as -> by congruence.
+      cbn [forallb map]. intros Hz U. apply andb_true_iff in Hz as [Hz1 Hz2].
+      destruct (N.ltb_spec (bed [a; b]) 32768); [|lia].
+      destruct (spec_known reg (bed [a; b], 0, bed [c; d])) eqn:K.
+      * rewrite resolve_complete by (intros _; exact K). cbn [obind]. unfold zero_ok in Hz1.
+        destruct (zero_value (ie_dt (spec_elem reg (bed [a; b], 0, bed [c; d])))); try discriminate. cbn [obind].
+        cbn [andb] in U. now rewrite (IH r wf1 W1 Hz2 U).
+      * now rewrite (resolve_strict_unknown _ _ _ _ K).
+    + destruct r as [|e1 [|e2 [|e3 [|e4 r']]]]; try discriminate.
+      destruct (wire_fields n r') as [wf1|] eqn:W1; [|discriminate]. cbn [option_map].
+      intros E. assert (wf = (bed [a; b] - 32768, bed [e1; e2; e3; e4], bed [c; d]) :: wf1) as -> by congruence.
+      cbn [forallb map]. intros Hz U. apply andb_true_iff in Hz as [Hz1 Hz2].
+      destruct (N.ltb_spec (bed [a; b]) 32768); [lia|].
+      cbn [short firstn skipn obind]. rewrite ?short_0. cbn [obind].
+      destruct (spec_known reg (bed [a; b] - 32768, bed [e1; e2; e3; e4], bed [c; d])) eqn:K.
+      * rewrite resolve_complete by (intros _; exact K). cbn [obind]. unfold zero_ok in Hz1.
+        destruct (zero_value (ie_dt (spec_elem reg (bed [a; b] - 32768, bed [e1; e2; e3; e4], bed [c; d])))); try discriminate. cbn [obind].
+        cbn [andb] in U. now rewrite (IH r' wf1 W1 Hz2 U).
+      * now rewrite (resolve_strict_unknown _ _ _ _ K).
+Qed.
+
+Lemma strict_rejects_exact reg tm bytes h tid es :
+  spec_template Keep reg bytes = Some (h, tid, es) -> has_unknown reg bytes = true ->
+  decode_packet Strict reg tm bytes = (Err ErrUnknownIE, tm_delete tm (wire_obs bytes) (wire_tid bytes)).
+Proof.
+  intros K U. unfold spec_template in K. unfold has_unknown in U.
+  destruct (hdr_ok bytes) eqn:H; [|discriminate]. cbn [andb] in K.
+  destruct (N.eqb (wire_setid bytes) c_entities_TemplateSetID) eqn:T; [|discriminate]. cbn [andb] in K.
+  destruct (short bytes 24) eqn:S24; [discriminate|]. cbn [negb] in K.
+  destruct (wire_fields (N.to_nat (wire_count bytes)) (skipn 24 bytes)) as [wf|] eqn:W; [|discriminate].
+  cbn [andb] in K. destruct (forallb zero_ok (map (spec_elem reg) wf)) eqn:Z; [|discriminate].
+  apply negb_true_iff in U.
+  apply hdr_ok_inv in H as [S20 V]. apply short_false in S24.
+  unfold decode_packet. rewrite (read_header_complete bytes S20), V, T. cbn [negb].
+  unfold decode_template_set.
+  rewrite (rd_complete 2 (skipn 20 bytes)) by (rewrite skipn_length; lia). cbn [obind].
+  rewrite !skipn_skipn. cbn [Nat.add].
+  rewrite (rd_complete 2 (skipn 22 bytes)) by (rewrite skipn_length; lia). cbn [obind].
+  rewrite !skipn_skipn. cbn [Nat.add].
+  unfold wire_count in W. rewrite (decode_tfields_strict_unknown reg _ _ wf W Z U). reflexivity.
+Qed.
